@@ -43,20 +43,12 @@ FINDING_SITES = {
                    "instance label, component, entity and architecture names are not resolved",
     "block_config": "block/component configuration inside a configuration declaration (`for arch`, `for inst : comp`, "
                     "`use entity lib.ent(arch)`): names are not resolved",
-    "block_map_formal": "formal part of a block header generic map / port map (`generic map (bg => ..)`) is not resolved",
-    "resolution_function": "resolution function name in a subtype indication (`subtype r is resolve bit`) is not resolved",
+    "record_resolution_element": "record element simple name in a record resolution indication "
+                                 "(`subtype r is (fb res_f) rec_t;`) is not resolved",
     "config_inst_formal": "formal part of the port/generic map of a configuration instantiation "
                           "(`u : configuration work.cfg port map (clk => c);`) is not resolved",
     "two_libraries": "file mapped to two libraries: only the entity of one library is renamed, references through the "
                      "other library keep the old name although the shared file is edited",
-}
-
-
-# Finding that depends on where the rename is issued (the cursor), not on where occurrences are missed.
-CURSOR_FINDING_SITES = {
-    "pkg_instance_ref": "rename issued on a reference through a package instance (`inst.f`, `inst.c`): the instance entity is "
-                        "InstanceOf(declaration) and unrelated to the body-side entity, so the body name, its end identifier, "
-                        "the full declaration of a deferred constant and the uses inside the package body are missed",
 }
 
 
@@ -632,8 +624,6 @@ def main(tier, replay=None):
                             site = x.finding
                         elif len(sites) == 1 and list(sites)[0] in FINDING_SITES:
                             site = list(sites)[0]
-                        elif o.site in CURSOR_FINDING_SITES and sites == {""}:
-                            site = o.site
                     if site and site in known:
                         stats["known_finding_cases"][site] = stats["known_finding_cases"].get(site, 0) + 1
                         res.count_case("known:%s:%s:%s" % (g.get("idx"), x.id, site), True)
@@ -645,8 +635,15 @@ def main(tier, replay=None):
                     if extra:
                         what.append("(iv) %d edit(s) touch text that is not an occurrence of the entity: %s" % (len(extra), sorted(extra)[:4]))
                     if site:
-                        what.append("[finding site `%s`: %s — no open entry in known_findings.json]" % (
-                            site, FINDING_SITES.get(site) or CURSOR_FINDING_SITES[site]))
+                        what.append("[finding site `%s`: %s — no open entry in known_findings.json]" % (site, FINDING_SITES[site]))
+                    if site:
+                        # a finding site without an open entry: list at most two of them so that they cannot crowd
+                        # other violations out of the report
+                        stats.setdefault("unlisted_site_violations", {})
+                        n_ = stats["unlisted_site_violations"].get(site, 0)
+                        stats["unlisted_site_violations"][site] = n_ + 1
+                        if n_ >= 2:
+                            continue
                     violation("; ".join(what), replay_obj(g, rq, {"edits": sorted(flat), "expected": sorted(expected), "site": site}))
                     continue
                 key = tuple(sorted(flat))
